@@ -46,6 +46,18 @@ Theorem C08_one_completes_all_complete :
 Proof. exact one_completes_all_complete. Qed.
 Print Assumptions C08_one_completes_all_complete.
 
+(* the lemma behind (2) and (3): if ONE execution reaches a terminal state t in n steps then every execution has
+   at most n steps and can be completed to t (in particular every schedule terminates) *)
+Theorem C08_confluence :
+  forall (cu : list (list nat)) (L : Type) (P : prog L) (good : L -> Prop),
+  (forall w l, good l -> forall q k, P w l <> ATest q k) ->
+  (forall eager hs w l tb l' e, good l -> react cu eager P hs w l tb = Some (l', e) -> good l') ->
+  forall eager n (s t : state L),
+  good_state good s -> steps cu eager P n s t -> terminal cu eager P t ->
+  forall m u, steps cu eager P m s u -> m <= n /\ steps cu eager P (n - m) u t.
+Proof. exact confluence_main. Qed.
+Print Assumptions C08_confluence.
+
 (* (4) buffering of standard-mode sends: complete executions under any two buffering behaviours end in the
    same state, and one complete execution in which nothing is buffered excludes deadlock for every behaviour *)
 Theorem C08_buffering_independent :
@@ -124,6 +136,14 @@ Theorem C08_recv_matched_once :
   (forall w' q' v', recv_partner cu hs w' q' = Some (ws, pq, v') -> w' = w /\ q' = q).
 Proof. exact recv_matched_once. Qed.
 Print Assumptions C08_recv_matched_once.
+
+(* the two sides of the matching agree: a synchronous send waits exactly for the receive that takes its payload *)
+Theorem C08_matching_symmetric :
+  forall cu hs w q ws pq v,
+  (forall c, NoDup (members cu c)) ->
+  recv_partner cu hs w q = Some (ws, pq, v) -> send_partner cu hs ws pq = Some (w, q).
+Proof. exact matching_symmetric. Qed.
+Print Assumptions C08_matching_symmetric.
 
 (* in an accepted log a completed receive delivers exactly its partner's payload, and a send completes only with
    the payload that was posted (monitor: buffer untouched until completion) *)
